@@ -1332,7 +1332,9 @@ def check_batch_keys_and_aliases(repo, chk):
             for t in st.targets:
                 if isinstance(t, ast.Name):
                     defs.setdefault(t.id, set()).update(x.id for x in ast.walk(st.value) if isinstance(x, ast.Name))
-        elif isinstance(st, ast.AugAssign) and isinstance(st.target, ast.Name):
+        elif isinstance(st, (ast.AugAssign, ast.AnnAssign)) and isinstance(st.target, ast.Name) and st.value is not None:
+            defs.setdefault(st.target.id, set()).update(x.id for x in ast.walk(st.value) if isinstance(x, ast.Name))
+        elif isinstance(st, ast.NamedExpr) and isinstance(st.target, ast.Name):
             defs.setdefault(st.target.id, set()).update(x.id for x in ast.walk(st.value) if isinstance(x, ast.Name))
 
     def depends(names, seen=None):
